@@ -591,7 +591,7 @@ def replay_number_comparisons(problems, prop="C04"):
 
 
 # ---------------------------------------------------------------- C13 (ParallelHeapIter arms)
-def replay_term_order(viol):
+def replay_term_order(viol, prop="C13"):
     """two-element sequences in every representation (string, list, list with string tail,
     partial string) and compounds: compare/3 against the order computed on the abstract terms:
     heads before tails, arguments left to right, arity before name."""
@@ -640,7 +640,7 @@ def replay_term_order(viol):
               ("compare(O, 1, a), write(O), nl", "<"), ("compare(O, a, f(a)), write(O), nl", "<"),
               ("compare(O, f(a), _), write(O), nl", ">")]
     prog = (":- use_module(library(iso_ext)).\n:- use_module(library(lists)).\nexplode([], []).\nexplode([C|Cs], [C|Ds]) :- explode(Cs, Ds).\n")
-    return run_cases(prog, cases, {"model": viol}, "C13", "term_order", batch=True)
+    return run_cases(prog, cases, {"model": viol}, prop, "term_order", batch=True)
 
 
 # ---------------------------------------------------------------- C13/C21 (atom order)
